@@ -84,7 +84,7 @@ def main():
             for pid in m["properties"]:
                 t0 = time.time()
                 # replays/evidence of runs against scratch trees go to the scratch tree, never to /verif
-                cmd = (f"VERIF_REPO={wt} VERIF_OUT={wt}/.verif-out VERIF_WORKERS={a.workers} timeout 900 {PY} {VERIF}/dst/run.py {pid} "
+                cmd = (f"VERIF_REPO={wt} VERIF_OUT={wt}/.verif-out VERIF_WORKERS={a.workers} VERIF_WALL_CAP=2000 timeout 2400 {PY} {VERIF}/dst/run.py {pid} "
                        f"--tier {a.tier} --no-determinism" + (" --sweep" if a.sweep else ""))
                 if a.runs:
                     cmd += f" --runs {a.runs}"
